@@ -60,6 +60,22 @@ static void                        fail (const std::string& key, const std::stri
     ++g_failCount[key];
     if (g_failPrinted[key]++ < 3) printf ("FAIL %s | %s\n", key.c_str (), detail.c_str ());
 }
+// per-law evaluation counts for the members / random modes (audit r2 N5): a law whose loop is skipped cannot fail.
+// Thread-local tallies keyed by the two string LITERALS that make up the law key; merged under g_mu when a thread ends / on flush.
+static std::map<std::string, long> g_lawEvals;
+struct LawTally
+{
+    std::map<std::pair<const char*, const char*>, long> m;
+    void flush ()
+    {
+        std::lock_guard<std::mutex> l (g_mu);
+        for (auto& kv : m) g_lawEvals[std::string (kv.first.first) + kv.first.second] += kv.second;
+        m.clear ();
+    }
+    ~LawTally () { flush (); }
+};
+static thread_local LawTally tl_law;
+static inline void lawEval (const char* cls, const char* suffix, long n = 1) { tl_law.m[{cls, suffix}] += n; }
 struct Tally
 {
     std::atomic<long> evals{0}, nontrivial{0};
@@ -255,22 +271,23 @@ template <class T, int D> struct Members
             }
             t.evals += (long) pts.size ();
             t.nontrivial += nin;
+            lawEval (X::cls (), "-intersects-point", (long) pts.size ());
             // isEmpty <-> no point inside (brute force)
-            if (b.isEmpty () != (nin == 0)) fail (std::string (X::cls ()) + "-isEmpty", tg + " " + boxStr (lo, hi) + " impl=" + (b.isEmpty () ? "true" : "false"));
+            if (lawEval (X::cls (), "-isEmpty"), (b.isEmpty () != (nin == 0))) fail (std::string (X::cls ()) + "-isEmpty", tg + " " + boxStr (lo, hi) + " impl=" + (b.isEmpty () ? "true" : "false"));
             bool vol = true;
             for (int i = 0; i < D; ++i) vol = vol && lo[i] < hi[i];
-            if (b.hasVolume () != vol) fail (std::string (X::cls ()) + "-hasVolume", tg + " " + boxStr (lo, hi));
-            if (b.isInfinite ()) fail (std::string (X::cls ()) + "-isInfinite", tg + " " + boxStr (lo, hi) + " reported infinite");
+            if (lawEval (X::cls (), "-hasVolume"), (b.hasVolume () != vol)) fail (std::string (X::cls ()) + "-hasVolume", tg + " " + boxStr (lo, hi));
+            if (lawEval (X::cls (), "-isInfinite"), (b.isInfinite ())) fail (std::string (X::cls ()) + "-isInfinite", tg + " " + boxStr (lo, hi) + " reported infinite");
             // size, center
             P sz = b.size (), ce = b.center ();
             bool inv = specInverted<D> (lo, hi);
             for (int i = 0; i < D; ++i)
             {
                 T es = inv ? T (0) : T (fromHalf<T> (hi[i]) - fromHalf<T> (lo[i]));
-                if (X::at (sz, i) != es) fail (std::string (X::cls ()) + "-size", tg + " " + boxStr (lo, hi) + " size=" + pStr<T, D> (sz));
+                if (lawEval (X::cls (), "-size"), (X::at (sz, i) != es)) fail (std::string (X::cls ()) + "-size", tg + " " + boxStr (lo, hi) + " size=" + pStr<T, D> (sz));
                 T ec = T ((fromHalf<T> (hi[i]) + fromHalf<T> (lo[i])) / 2);
                 if (!std::numeric_limits<T>::is_integer) ec = (T) ((hi[i] + lo[i]) / 4.0);
-                if (X::at (ce, i) != ec) fail (std::string (X::cls ()) + "-center", tg + " " + boxStr (lo, hi) + " center=" + pStr<T, D> (ce));
+                if (lawEval (X::cls (), "-center"), (X::at (ce, i) != ec)) fail (std::string (X::cls ()) + "-center", tg + " " + boxStr (lo, hi) + " center=" + pStr<T, D> (ce));
             }
             t.evals += 6;
         });
@@ -292,7 +309,7 @@ template <class T, int D> struct Members
                 int si = inv ? 0 : hi[i] - lo[i], sb = inv ? 0 : hi[best] - lo[best];
                 if (si > sb) best = i;
             }
-            if ((int) b.majorAxis () != best) fail ("box-majorAxis", tg + " " + boxStr (lo, hi) + " impl=" + std::to_string (b.majorAxis ()) + " spec=" + std::to_string (best));
+            if (lawEval ("", "box-majorAxis"), ((int) b.majorAxis () != best)) fail ("box-majorAxis", tg + " " + boxStr (lo, hi) + " impl=" + std::to_string (b.majorAxis ()) + " spec=" + std::to_string (best));
             ++t.evals;
             if (best) ++t.nontrivial;
         }
@@ -322,14 +339,14 @@ template <class T, int D> struct Members
         }
         for (auto& p : probes)
         {
-            if (d.intersects (p)) fail (std::string (X::cls ()) + "-default-contains", tg + " default box contains " + pStr<T, D> (p));
-            if (e.intersects (p)) fail (std::string (X::cls ()) + "-makeEmpty-contains", tg + " makeEmpty box contains " + pStr<T, D> (p));
-            if (!inf.intersects (p)) fail (std::string (X::cls ()) + "-makeInfinite-misses", tg + " makeInfinite box misses " + pStr<T, D> (p));
+            if (lawEval (X::cls (), "-default-contains"), (d.intersects (p))) fail (std::string (X::cls ()) + "-default-contains", tg + " default box contains " + pStr<T, D> (p));
+            if (lawEval (X::cls (), "-makeEmpty-contains"), (e.intersects (p))) fail (std::string (X::cls ()) + "-makeEmpty-contains", tg + " makeEmpty box contains " + pStr<T, D> (p));
+            if (lawEval (X::cls (), "-makeInfinite-misses"), (!inf.intersects (p))) fail (std::string (X::cls ()) + "-makeInfinite-misses", tg + " makeInfinite box misses " + pStr<T, D> (p));
             t.evals += 3;
             ++t.nontrivial;
         }
-        if (!d.isEmpty () || !e.isEmpty () || d != e || !(d == e)) fail (std::string (X::cls ()) + "-default-empty", tg + " default/makeEmpty not empty or unequal");
-        if (!inf.isInfinite () || inf.isEmpty ()) fail (std::string (X::cls ()) + "-isInfinite", tg + " makeInfinite box not reported infinite");
+        if (lawEval (X::cls (), "-default-empty"), (!d.isEmpty () || !e.isEmpty () || d != e || !(d == e))) fail (std::string (X::cls ()) + "-default-empty", tg + " default/makeEmpty not empty or unequal");
+        if (lawEval (X::cls (), "-isInfinite"), (!inf.isInfinite () || inf.isEmpty ())) fail (std::string (X::cls ()) + "-isInfinite", tg + " makeInfinite box not reported infinite");
         // DESIGN §7 item 5 (repaired): empty vs infinite
         // (reported by pairs() on the lattice as well; here the literal makeEmpty / makeInfinite pair)
         {
@@ -340,7 +357,7 @@ template <class T, int D> struct Members
             std::lock_guard<std::mutex> l (g_mu);
             printf ("WITNESS %s intersectsBox empty-vs-containing: [5..-5].intersects([-5..5]) = %d, [5..-5].isEmpty() = %d\n", tg.c_str (), (int) wE.intersects (wI), (int) wE.isEmpty ());
         }
-        if (e.intersects (inf) || inf.intersects (e))
+        if (lawEval (X::cls (), "-intersects:empty-vs-containing"), (e.intersects (inf) || inf.intersects (e)))
             fail (std::string (X::cls ()) + "-intersects:empty-vs-containing",
                   tg + " makeEmpty().intersects(makeInfinite()) = " + (e.intersects (inf) ? "true" : "false") + ", reverse = " + (inf.intersects (e) ? "true" : "false") +
                       " although the empty box contains no point");
@@ -357,7 +374,7 @@ template <class T, int D> struct Members
                 box (j, lo2, hi2);
                 B    c  = mkB<T, D> (lo2, hi2);
                 bool eq = lo == lo2 && hi == hi2;
-                if ((b == c) != eq || (b != c) == eq) fail (std::string (X::cls ()) + "-equality", tg + " " + boxStr (lo, hi) + " vs " + boxStr (lo2, hi2));
+                if (lawEval (X::cls (), "-equality"), ((b == c) != eq || (b != c) == eq)) fail (std::string (X::cls ()) + "-equality", tg + " " + boxStr (lo, hi) + " vs " + boxStr (lo2, hi2));
                 ++t.evals;
             }
         }
@@ -391,6 +408,9 @@ template <class T, int D> struct Members
                 for (int w = 0; w < W; ++w) s = s || (bits[(size_t) a * W + w] & bits[(size_t) b * W + w]);
                 bool r = bx[a].intersects (bx[b]);
                 tr += s;
+                // which of the two laws this pair evaluates: an empty operand -> "empty-vs-containing", otherwise "nonempty-boxes"
+                lawEval (X::cls (), (inv[a] || inv[b]) ? "-intersects:empty-vs-containing" : "-intersects:nonempty-boxes");
+                if (a < b) lawEval (X::cls (), "-intersects:asymmetric");
                 if (r != s)
                 {
                     IP<D> lo, hi, lo2, hi2;
@@ -455,6 +475,7 @@ template <class T, int D> struct Members
             ++t.nontrivial;
             ok = b.min == mkP<T, D> (lo) && b.max == mkP<T, D> (hi);
         }
+        lawEval (X::cls (), "-extendBy:not-least");
         if (!ok)
         {
             std::string d = tg + " sequence from the default box:";
@@ -555,9 +576,9 @@ template <class T, int D> struct Members
                 }
                 P r  = clip (mkP<T, D> (p), b);
                 P r2 = closestPointInBox (mkP<T, D> (p), b);
-                if (!(r == mkP<T, D> (*arg)) || ties != 1)
+                if (lawEval ("", "clip:not-nearest"), (!(r == mkP<T, D> (*arg)) || ties != 1))
                     fail ("clip:not-nearest", tg + " " + boxStr (lo, hi) + " p=" + ipStr<D> (p) + " clip=" + pStr<T, D> (r) + " brute-force nearest=" + ipStr<D> (*arg));
-                if (!(r2 == r)) fail ("closestPointInBox:differs-from-clip", tg + " " + boxStr (lo, hi) + " p=" + ipStr<D> (p));
+                if (lawEval ("", "closestPointInBox:differs-from-clip"), (!(r2 == r))) fail ("closestPointInBox:differs-from-clip", tg + " " + boxStr (lo, hi) + " p=" + ipStr<D> (p));
                 ++t.evals;
                 if (best > 0) ++t.nontrivial;
             }
@@ -590,7 +611,7 @@ template <class T, int D> struct Members
                 ++t.evals;
                 if (inv)
                 {
-                    if (!(r == pp)) fail ("closestPointOnBox:empty-box-not-identity", tg + " " + boxStr (lo, hi) + " p=" + ipStr<D> (p) + " result=" + pStr<T, D> (r));
+                    if (lawEval ("", "closestPointOnBox:empty-box-not-identity"), (!(r == pp))) fail ("closestPointOnBox:empty-box-not-identity", tg + " " + boxStr (lo, hi) + " p=" + ipStr<D> (p) + " result=" + pStr<T, D> (r));
                     continue;
                 }
                 ++t.nontrivial;
@@ -614,6 +635,7 @@ template <class T, int D> struct Members
                 for (int i = 0; i < D; ++i) on = on || rh[i] == lo[i] || rh[i] == hi[i];
                 long d2 = 0;
                 for (int i = 0; i < D; ++i) d2 += (long) (rh[i] - p[i]) * (rh[i] - p[i]);
+                lawEval ("", "closestPointOnBox:not-on-surface"); lawEval ("", "closestPointOnBox:not-nearest");
                 if (!exact || !specMem<D> (lo, hi, rh) || !on)
                     fail ("closestPointOnBox:not-on-surface", tg + " " + boxStr (lo, hi) + " p=" + ipStr<D> (p) + " result=" + pStr<T, D> (r));
                 else if (d2 != best)
@@ -685,24 +707,25 @@ template <class T> static void randomT (unsigned long seed, long n)
         if (g () % 4 == 0) p = a.min;
         if (g () % 7 == 0) p = a.max;
         ++t.evals;
-        if (a.intersects (p) != mem (a, p)) fail ("box-intersects-point:random", tg + " min=" + vs (a.min) + " max=" + vs (a.max) + " p=" + vs (p));
+        if (lawEval ("", "box-intersects-point:random"), (a.intersects (p) != mem (a, p))) fail ("box-intersects-point:random", tg + " min=" + vs (a.min) + " max=" + vs (a.max) + " p=" + vs (p));
         // shared point: candidates are the componentwise max of the mins and min of the maxes
         V c1, c2;
         for (int i = 0; i < 3; ++i) { c1[i] = a.min[i] < b.min[i] ? b.min[i] : a.min[i]; c2[i] = a.max[i] < b.max[i] ? a.max[i] : b.max[i]; }
         bool share = (mem (a, c1) && mem (b, c1)) || (mem (a, c2) && mem (b, c2));
         bool r     = a.intersects (b);
         if (share) ++t.nontrivial;
+        lawEval ("", (a.isEmpty () || b.isEmpty ()) ? "box-intersects:empty-vs-containing" : "box-intersects:nonempty-boxes");
         if (r != share)
         {
             bool e = a.isEmpty () || b.isEmpty ();
             fail (r && e ? "box-intersects:empty-vs-containing" : "box-intersects:nonempty-boxes",
                   tg + " random: this min=" + vs (a.min) + " max=" + vs (a.max) + " arg min=" + vs (b.min) + " max=" + vs (b.max) + " impl=" + (r ? "true" : "false"));
         }
-        if (r != b.intersects (a)) fail ("box-intersects:asymmetric", tg + " random");
+        if (lawEval ("", "box-intersects:asymmetric"), (r != b.intersects (a))) fail ("box-intersects:asymmetric", tg + " random");
         bool inv = false, vol = true;
         for (int i = 0; i < 3; ++i) { inv = inv || a.max[i] < a.min[i]; vol = vol && a.min[i] < a.max[i]; }
-        if (a.isEmpty () != inv) fail ("box-isEmpty", tg + " random min=" + vs (a.min) + " max=" + vs (a.max));
-        if (a.hasVolume () != vol) fail ("box-hasVolume", tg + " random min=" + vs (a.min) + " max=" + vs (a.max));
+        if (lawEval ("", "box-isEmpty"), (a.isEmpty () != inv)) fail ("box-isEmpty", tg + " random min=" + vs (a.min) + " max=" + vs (a.max));
+        if (lawEval ("", "box-hasVolume"), (a.hasVolume () != vol)) fail ("box-hasVolume", tg + " random min=" + vs (a.min) + " max=" + vs (a.max));
         // extendBy sequence of up to 5 finite-or-infinite points from the default box
         Box<V> e;
         V      lo, hi;
@@ -719,16 +742,16 @@ template <class T> static void randomT (unsigned long seed, long n)
                 hi[i] = (j == 0 || hi[i] < q[i]) ? q[i] : hi[i];
             }
         }
-        if (len == 0 ? !e.isEmpty () : !(e.min == lo && e.max == hi)) fail ("box-extendBy:not-least", tg + " random sequence of " + std::to_string (len) + " points: min=" + vs (e.min) + " max=" + vs (e.max));
+        if (lawEval ("", "box-extendBy:not-least"), (len == 0 ? !e.isEmpty () : !(e.min == lo && e.max == hi))) fail ("box-extendBy:not-least", tg + " random sequence of " + std::to_string (len) + " points: min=" + vs (e.min) + " max=" + vs (e.max));
         // clip: inside the box and per axis between p and any box point
         if (!inv)
         {
             V q = clip (p, a);
-            if (!mem (a, q)) fail ("clip:not-in-box", tg + " random min=" + vs (a.min) + " max=" + vs (a.max) + " p=" + vs (p) + " clip=" + vs (q));
+            if (lawEval ("", "clip:not-in-box"), (!mem (a, q))) fail ("clip:not-in-box", tg + " random min=" + vs (a.min) + " max=" + vs (a.max) + " p=" + vs (p) + " clip=" + vs (q));
             for (int i = 0; i < 3; ++i)
             {
                 T expect = p[i] < a.min[i] ? a.min[i] : (a.max[i] < p[i] ? a.max[i] : p[i]);
-                if (!(q[i] == expect)) fail ("clip:not-nearest", tg + " random axis " + std::to_string (i));
+                if (lawEval ("", "clip:not-nearest"), (!(q[i] == expect))) fail ("clip:not-nearest", tg + " random axis " + std::to_string (i));
             }
         }
     }
@@ -748,7 +771,7 @@ template <class T> static void nanPoints ()
     {
         Interval<T> u ((T) 0, (T) 1);
         ++t.evals; ++t.nontrivial;
-        if (u.intersects (nan)) fail ("box-intersects-point:nan-coordinate", "Interval<" + tn + ">[0,1].intersects(NaN) = true");
+        if (lawEval ("", "box-intersects-point:nan-coordinate"), (u.intersects (nan))) fail ("box-intersects-point:nan-coordinate", "Interval<" + tn + ">[0,1].intersects(NaN) = true");
     }
     for (int k = 0; k < 2; ++k)
     {
@@ -756,7 +779,7 @@ template <class T> static void nanPoints ()
         Vec2<T>      p (h, h);
         p[k] = nan;
         ++t.evals; ++t.nontrivial;
-        if (u.intersects (p)) fail ("box-intersects-point:nan-coordinate", "Box<Vec2<" + tn + ">> [0,1]^2 .intersects(point with NaN at axis " + std::to_string (k) + ", 0.5 elsewhere) = true");
+        if (lawEval ("", "box-intersects-point:nan-coordinate"), (u.intersects (p))) fail ("box-intersects-point:nan-coordinate", "Box<Vec2<" + tn + ">> [0,1]^2 .intersects(point with NaN at axis " + std::to_string (k) + ", 0.5 elsewhere) = true");
     }
     for (int k = 0; k < 3; ++k)
     {
@@ -764,7 +787,7 @@ template <class T> static void nanPoints ()
         Vec3<T>      p (h, h, h);
         p[k] = nan;
         ++t.evals; ++t.nontrivial;
-        if (u.intersects (p)) fail ("box-intersects-point:nan-coordinate", "Box<Vec3<" + tn + ">> [0,1]^3 .intersects(point with NaN at axis " + std::to_string (k) + ", 0.5 elsewhere) = true");
+        if (lawEval ("", "box-intersects-point:nan-coordinate"), (u.intersects (p))) fail ("box-intersects-point:nan-coordinate", "Box<Vec3<" + tn + ">> [0,1]^3 .intersects(point with NaN at axis " + std::to_string (k) + ", 0.5 elsewhere) = true");
     }
     for (int k = 0; k < 4; ++k)
     {
@@ -772,9 +795,20 @@ template <class T> static void nanPoints ()
         Vec4<T>      p (h, h, h, h);
         p[k] = nan;
         ++t.evals; ++t.nontrivial;
-        if (u.intersects (p))
+        if (lawEval ("", "box-intersects-point:nan-coordinate"), u.intersects (p))
             fail ("box-intersects-point:nan-coordinate", "Box<Vec4<" + tn + ">> (the GENERIC template) [0,1]^4 .intersects(point with NaN at axis " + std::to_string (k) +
                   ", 0.5 elsewhere) = true, while Interval / Box<Vec2> / Box<Vec3> answer false for the same kind of point");
+    }
+    {
+        // extendBy with a NaN coordinate, recorded (informational): every copy compares (`p < min`, std::min / std::max), all false -> no-op
+        Interval<T>  i1 ((T) 0, (T) 1), j1 = i1;
+        Box<Vec2<T>> b2 (Vec2<T> (0, 0), Vec2<T> (1, 1)), c2 = b2;
+        Box<Vec3<T>> b3 (Vec3<T> (0, 0, 0), Vec3<T> (1, 1, 1)), c3 = b3;
+        Box<Vec4<T>> b4 (Vec4<T> (0, 0, 0, 0), Vec4<T> (1, 1, 1, 1)), c4 = b4;
+        j1.extendBy (nan); c2.extendBy (Vec2<T> (nan, h)); c3.extendBy (Vec3<T> (nan, h, h)); c4.extendBy (Vec4<T> (nan, h, h, h));
+        std::lock_guard<std::mutex> l (g_mu);
+        printf ("WITNESS %s extendBy(point with x = NaN) leaves [0,1]^D unchanged (informational): Interval=%d Box<Vec2>=%d Box<Vec3>=%d Box<Vec4>(generic)=%d\n", tn.c_str (),
+                (int) (j1 == i1), (int) (c2 == b2), (int) (c3 == b3), (int) (c4 == b4));
     }
     summary (std::string ("nan-points:") + tn, t);
 }
@@ -898,7 +932,7 @@ template <class S, class T = S> struct Xf
         // junk in the out-parameter before the call: a box far away from everything, or the unit cube, or default
         B olds[3] = {B (V (50, 50, 50), V (60, 60, 60)), B (V (0, 0, 0), V (1, 1, 1)), B ()};
         // expected: exact 8-corner bound (fractions over scale^2 for the numerators, w over scale^2)
-        bool   haveExp = false, exactDiv = true, init = false, anyW0 = false, allWpos = true;
+        bool   haveExp = false, exactDiv = true, init = false, anyW0 = false, allWpos = true, allWneg = true;
         Frac   elo[3], ehi[3];
         if (!inv && kind == 0)
         {
@@ -910,6 +944,7 @@ template <class S, class T = S> struct Xf
                 // coordinate j = num[j] / num[3] (homogeneous divide) for the general operator; affine: w = scale^2 -> num[j]/scale^2
                 long long w = num[3];
                 if (w <= 0) allWpos = false;
+                if (w >= 0) allWneg = false;
                 if (w == 0) { exactDiv = false; anyW0 = true; continue; }
                 // is the floating-point division exact?  w (over scale^2) must be +-2^k
                 long long aw = w < 0 ? -w : w;
@@ -979,11 +1014,11 @@ template <class S, class T = S> struct Xf
                             break;
                         }
                     if (canAffine && !(r2.min == r0.min && r2.max == r0.max)) fail ("affineTransform:differs-from-transform", ctx + " -> " + boxS (r2) + " vs " + boxS (r0));
-                    // images of lattice points of the box lie inside: affine path, and (audit W3) projective path when the
-                    // homogeneous coordinate w is positive at all eight corners (theorem transform_contains_of_pos_w).
+                    // images of lattice points of the box lie inside: affine path, and (audit W3 / r2 N7) projective path when the
+                    // homogeneous coordinate w has ONE sign at all eight corners (theorems transform_contains_of_pos_w / _of_neg_w).
                     // The image is computed EXACTLY here (fractions) and compared with the box the real code returned;
                     // when w(p) is a power of two the real `p * m` is exact too and `intersects` is asked as well.
-                    if (affine || allWpos)
+                    if (affine || allWpos || allWneg)
                         for (int s = 0; s < 4; ++s)
                         {
                             V         p;
@@ -997,16 +1032,16 @@ template <class S, class T = S> struct Xf
                             long long num[4];
                             for (int j = 0; j < 4; ++j) num[j] = pk[0] * mk[0 * 4 + j] + pk[1] * mk[1 * 4 + j] + pk[2] * mk[2 * 4 + j] + (long long) scale * mk[3 * 4 + j];
                             std::string ps = " p=(" + std::to_string ((double) p.x) + "," + std::to_string ((double) p.y) + "," + std::to_string ((double) p.z) + ")";
-                            bool        outside = num[3] <= 0; // w > 0 at the corners implies w > 0 on the box
+                            bool        outside = (!affine && allWneg) ? num[3] >= 0 : num[3] <= 0; // w of constant sign at the corners => same sign on the box
                             for (int j = 0; j < 3 && !outside; ++j)
                             {
                                 Frac img = mkF (num[j], num[3]), lo, hi;
                                 if (!toFrac ((double) r0.min[j], lo) || !toFrac ((double) r0.max[j], hi)) continue;
                                 if (fless (img, lo) || fless (hi, img)) outside = true;
                             }
-                            evald (affine ? "transform:image-of-box-point-outside" : "transform:image-of-box-point-outside:projective-w>0");
-                            if (outside) fail ("transform:image-of-box-point-outside", ctx + ps + (affine ? "" : " (projective, w > 0 at all corners)"));
-                            long long aw = num[3];
+                            evald (affine ? "transform:image-of-box-point-outside" : allWpos ? "transform:image-of-box-point-outside:projective-w>0" : "transform:image-of-box-point-outside:projective-w<0");
+                            if (outside) fail ("transform:image-of-box-point-outside", ctx + ps + (affine ? "" : allWpos ? " (projective, w > 0 at all corners)" : " (projective, w < 0 at all corners)"));
+                            long long aw = num[3] < 0 ? -num[3] : num[3];
                             if (aw > 0 && (aw & (aw - 1)) == 0)
                             {
                                 V q = p * m;
@@ -1216,10 +1251,20 @@ int main (int argc, char** argv)
                     "box point (0.25,0,0) -> (%g,%g,%g) inside=%d\n",
                     r.min.x, r.max.x, r.min.y, r.max.y, r.min.z, r.max.z, q.x, q.y, q.z, (int) r.intersects (q));
         }
+        {
+            // audit r2 N1, informational: a corner ON the plane w = 0 has no image.  The theorems exclude it (hypothesis w != 0 at the eight
+            // corners); the real code divides by zero: x/0 = +-inf enters the bound, 0/0 = NaN is ignored by extendBy (all comparisons false).
+            Matrix44<double>  m (1, 0, 0, 1, 0, 1, 0, 0, 0, 0, 1, 0, 0, 0, 0, 0); // w = x
+            Box<Vec3<double>> b (Vec3<double> (0, 0, 0), Vec3<double> (1, 1, 1)), r = transform (b, m);
+            printf ("WITNESS Box<Vec3<double>> projective corner with w = 0 (excluded by the theorems, documented): transform([0,1]^3, x'=x/x, y'=y/x, z'=z/x) -> "
+                    "[%g,%g]x[%g,%g]x[%g,%g]\n", r.min.x, r.max.x, r.min.y, r.max.y, r.min.z, r.max.z);
+        }
         for (auto& kv : g_evalCount) printf ("COUNT-EVAL %s %ld\n", kv.first.c_str (), kv.second);
     }
     else
         return 2;
+    tl_law.flush ();
+    for (auto& kv : g_lawEvals) printf ("COUNT-EVAL %s %ld\n", kv.first.c_str (), kv.second);
     for (auto& kv : g_failCount) printf ("COUNT %s %ld\n", kv.first.c_str (), kv.second);
     printf ("DONE fails=%zu\n", g_failCount.size ());
     return 0;
